@@ -16,6 +16,8 @@ FEED_CATS = DISPLAY_CATS + ('convert-from-unit', 'qstr', 'storage-label', 'add-u
 
 
 def run(ctx):
+    from .configtime import precision_zero_is_a_value as _prec0
+    _prec0(ctx, 'C19.R1', classes=None)
     # contents are keyed by Substance objects: the key laws this property's bookkeeping relies on
     from .identity import identity_discipline as _identity
     _identity(ctx, 'C19.R2', classes=('Substance',), memoised=False)
